@@ -90,7 +90,9 @@ class Sequences(Stage):
             if twins:
                 for c in twins:
                     c['which'] = twins[0]['which']
-        return dict(specs=specs, which=which, initial=initial, cmds=cmds)
+        # now and then the same commands over and over: matchers accumulated by hundreds of commands
+        repeat = d.int(15, 50) if d.chance(0.04) else None
+        return dict(specs=specs, which=which, initial=initial, cmds=cmds, repeat=repeat)
 
     @staticmethod
     def text_of(c):
@@ -106,6 +108,9 @@ class Sequences(Stage):
         from core.util import no_color
         res = Result()
         res.evals = 0
+        if case.get('repeat'):
+            case = dict(case, cmds=[dict(c) for _ in range(case['repeat']) for c in case['cmds']])
+            res.label('commands>=%d' % (50 if len(case['cmds']) >= 50 else 15))
         which0 = case['which']
         init = self.text_of(case['initial']) if case['initial'] else None
         first = 'filter' if which0 in ('filter', 'both') else 'breakpoint'
